@@ -387,14 +387,15 @@ PROPS = {
         ],
     },
     "C08": {
-        "gen": [],
-        "thm_module": "NutsModel.Thm.C08",
+        "gen": ["Kernels"],
+        "thm_module": "NutsModel.Thm.C08Gen",
         "namespace": "NutsModel.C08",
         "theorems": ["addAll_affine", "addAll_affine_new", "var_nonneg", "var_eq_zero_iff", "mean_is_average", "gaussian_scale_exact",
                      "adapt_none", "adapt_exact_of_foreground", "adapt_exact_on_gaussian", "adapt_none_below_three",
                      "adapt_exact_of_background", "adapt_exact_after_switch", "scale_stays_positive", "invalid_keeps_previous",
                      "invalid_keeps_previous_draw_zero", "invalid_keeps_previous_grad_zero", "invalid_keeps_previous_neg",
-                     "init_scale_positive", "init_positive", "spd_mean_solves_riccati", "gaussian_is_fixed_point"],
+                     "init_scale_positive", "init_positive", "spd_mean_solves_riccati", "gaussian_is_fixed_point",
+                     "gen_update_variance", "gen_update_draw_grad", "gen_update_grad"],
         "harness": "C08",
         "level": "proof",
         "rule": ("A. the REAL DiagAdaptStrategy + DiagMassMatrix and LowRankMassMatrixStrategy + LowRankMassMatrix driven through the hook "
@@ -409,6 +410,7 @@ PROPS = {
                  "after warmup fisher_distance = |grad_y + y|^2 <= 1e-10 (1+|y|^2) on every draw and no divergences. "
                  "distinct_nontrivial = scenarios in which at least one adapt changed the transformation + chain runs."),
         "trusted": [
+            "C08: TRANSLATOR TIE for the element-wise kernels: Gen/Kernels.lean is regenerated on every run from the closures of array_update_variance, array_update_var_inv_std_draw_grad, array_update_var_inv_std_grad (and _draw) in src/math/cpu_math.rs, and gen_update_variance / gen_update_draw_grad / gen_update_grad prove, for every scalar type, that the hand model's functions are those closures; the surrounding plumbing (slices, zips, which estimator feeds which argument, count bookkeeping, switch) remains hand-modelled and tied by the bit-exact replay",
             "C08: proved at the reals for the per-coordinate model: the running estimator is affine-equivariant, its variance is zero iff all samples are equal, hence for ANY >= 3 not-all-equal draws of a Gaussian the update returns exactly (sigma, 1/sigma, mu); scales stay > 0 and within [sqrt lo, sqrt hi] or unchanged for arbitrary real inputs; invalid ratios keep the previous value",
             "C08: NaN / infinity behaviour is not expressible at the reals: it is carried by the bit-exact Float replay of the same model definitions against the real estimator on the special-value windows, and by the direct oracle",
             "C08: the low-rank pipeline (faer SVD / QR / eigendecompositions) is not modelled: proved is only the algebra of its SPD-mean formula (X B X = A; the Gaussian covariance is a solution), its behaviour is measured (part A degenerate windows, part B exactness through fisher_distance); uniqueness of the SPD solution and the effect of the gamma regularisation are not proved",
